@@ -886,3 +886,17 @@ pub fn insert_options(f: &[u8], ip4_opts: &[u8], tcp_opts: &[u8]) -> Option<Vec<
         None
     }
 }
+
+/// insert IEEE 802.1Q / 802.1ad tags (TPID, TCI) behind the MAC addresses of a frame
+pub fn vlan_tagged(f: &[u8], tags: &[(u16, u16)]) -> Vec<u8> {
+    if f.len() < 12 {
+        return f.to_vec();
+    }
+    let mut v = f[..12].to_vec();
+    for (tpid, tci) in tags {
+        v.extend_from_slice(&tpid.to_be_bytes());
+        v.extend_from_slice(&tci.to_be_bytes());
+    }
+    v.extend_from_slice(&f[12..]);
+    v
+}
